@@ -16,6 +16,11 @@ structure DSt where
   onces : List (Nat × Nat) := []
   /-- kept keys that were not re-advertised in the previous online window -/
   pending : List Nat := []
+  /-- strict scenarios (several scheduled prefixes at all times, swarm well above the replication factor): a key that
+      skips one window is a failure.  Otherwise only a key missed in two consecutive windows is: with a single scheduled
+      prefix the provider arms its timer for exactly one interval, and in virtual time its handler then reads the clock at
+      exactly the deadline — a coincidence a real clock does not produce — and shifts slots by up to one interval -/
+  strict : Bool := false
   deriving Repr
 
 def ids (s : String) : List Nat := if s == "" || s == "-" then [] else (s.splitOn ",").map String.toNat!
@@ -40,7 +45,7 @@ def step (d : DSt) (line : String) : DSt × String :=
     | some "offline" => { d with online := false, pending := [] }
     | some "restart" => { d with pending := [] }
     | some "online" => { d with online := true }
-    | some "sp" => {}
+    | some "sp" => { strict := C09.kvOf ws "strict" == "1" }
     | _ => d
   let kept := sequential d1.kept (opsOf ws)
   ({ d1 with kept := kept }, s!"set={C01.showNats (C01.sortNats kept)}")
@@ -92,7 +97,7 @@ def verdict (d : DSt) (line : String) : DSt × String :=
       (d3, s!"FAIL key {still.headD 0} kept for reproviding was not re-advertised to all of its nearest peers in two consecutive windows of one interval plus the allowed delay")
     else if !zombie.isEmpty then
       (d3, s!"FAIL key {(zombie.headD (0, 0)).1} is still advertised in a later cycle although it is no longer kept")
-    else if !late.isEmpty then
+    else if !late.isEmpty && d.strict then
       (d3, s!"FAIL key {late.headD 0} kept for reproviding skipped a whole window (gap longer than one interval plus the allowed delay) [late by one cycle]")
     else (d3, "ok")
   | some "start" | some "once" | some "batch" =>
